@@ -715,11 +715,22 @@ func ruleLexerProgress(c *Ctx, r *Report, rule string) {
 			switch x := rs.Results[0].(type) {
 			case *ast.Ident:
 				if x.Name != "nil" && sf[c.identFn(x)] == nil {
-					bad = name + " returns " + x.Name
+					// a local that holds what a state chooser returned
+					okLocal := false
+					if v, isVar := c.objOf(x).(*types.Var); isVar && !v.IsField() {
+						if def, k := c.singleDef(fd.Body, v); k == 1 && def != nil {
+							if call, isCall := stripParens(def).(*ast.CallExpr); isCall && (c.isStateChooser(c.calleeName(call), sf, 0) || c.isFailingHelper(c.calleeName(call), 0)) {
+								okLocal = true
+							}
+						}
+					}
+					if !okLocal {
+						bad = name + " returns " + x.Name
+					}
 				}
 			case *ast.CallExpr:
-				if !c.isFailingHelper(c.calleeName(x), 0) {
-					bad = name + " returns the result of " + c.calleeName(x) + ", which is not lexer.fail or a helper ending in it"
+				if !c.isFailingHelper(c.calleeName(x), 0) && !c.isStateChooser(c.calleeName(x), sf, 0) {
+					bad = name + " returns the result of " + c.calleeName(x) + ", which is not lexer.fail, a helper ending in it, or a function choosing among the states"
 				}
 			default:
 				bad = name + " returns a computed state"
@@ -786,6 +797,47 @@ func sortedReach(reach map[*ssa.Function]bool) []*ssa.Function {
 		return out[i].Pos() < out[j].Pos()
 	})
 	return out
+}
+
+// isStateChooser: every return of the function is nil, a state function, or the result of another chooser / failing helper.
+func (c *Ctx) isStateChooser(name string, sf map[string]*ast.FuncDecl, depth int) bool {
+	if depth > 3 || name == "" {
+		return false
+	}
+	_, fd := c.find(name)
+	if fd == nil || fd.Body == nil {
+		return false
+	}
+	ok, n := true, 0
+	ast.Inspect(fd.Body, func(x ast.Node) bool {
+		if _, isLit := x.(*ast.FuncLit); isLit {
+			return false
+		}
+		rs, isR := x.(*ast.ReturnStmt)
+		if !isR {
+			return true
+		}
+		n++
+		if len(rs.Results) == 0 {
+			ok = false
+			return true
+		}
+		// (state, ok) results: the state is the first
+		switch v := rs.Results[0].(type) {
+		case *ast.Ident:
+			if v.Name != "nil" && sf[c.identFn(v)] == nil {
+				ok = false
+			}
+		case *ast.CallExpr:
+			if !c.isFailingHelper(c.calleeName(v), depth+1) && !c.isStateChooser(c.calleeName(v), sf, depth+1) {
+				ok = false
+			}
+		default:
+			ok = false
+		}
+		return true
+	})
+	return ok && n > 0
 }
 
 // isFailingHelper: name is lexer.fail, or a function every return of which is nil or a failing helper's result.
